@@ -200,8 +200,8 @@ func (env *Env) elab(e SExpr) Val {
 				}
 				return ex.ghostGet(env.cur, g)
 			}
-			// package-qualified constant
-			if _, bound := env.names[id.Name]; !bound {
+			// package-qualified constant (a local variable of that name takes precedence)
+			if _, bound := env.names[id.Name]; !bound && !(env.cur != nil && env.pos != token.NoPos && ex.hasLocalByName(env.cur, id.Name, env.pos)) {
 				if p := ex.importedPkg(env.pkg, id.Name); p != nil {
 					obj := p.Scope().Lookup(e.Name)
 					if obj == nil {
